@@ -22,7 +22,7 @@ from fractions import Fraction
 
 META = {'explanation': 'Complete enumeration of every table entry (decode: all codes; encode: all 65536 binary16 values x overflow '
                        'modes) against an exact-rational model of each format; mxint and scale are bounded.'}
-EXTRA_TASKS = ['tables_p4binary', 'tables_p3binary', 'tables_e5m2', 'tables_e4m3', 'tables_small', 'others', 'routes_across_modes', 'codec_routes_isolation']
+EXTRA_TASKS = ['tables_p4binary', 'tables_p3binary', 'tables_e5m2', 'tables_e4m3', 'tables_small', 'others', 'routes_across_modes', 'codec_routes_isolation', 'scale_divides']
 
 
 class Fmt:
@@ -478,3 +478,57 @@ def codec_routes_isolation(tier='quick', seed=0):
         b['id'] = b['id'].replace('C04/', 'C11/')
     r['id'] = 'C11.isolation'
     return r
+
+
+def scale_divides(tier='quick', seed=0):
+    """a Dtype scale divides the value before encoding: Dtype(fmt, scale=s).build(x) is exactly Dtype(fmt).build(x / s) -- also for
+    scales that are not powers of two and for x / s on a rounding boundary (code values and the midpoints between adjacent ones),
+    where any other arithmetic (x * (1 / s), say) lands on the neighbouring code.  Bounded, native."""
+    import math
+    import bitstring
+    from bitstring import Bits, Dtype
+    fails = []
+    evals = 0
+    fmts = ['p3binary', 'p4binary', 'e5m2mxfp', 'e4m3mxfp', 'e3m2mxfp', 'e2m3mxfp', 'e2m1mxfp', 'mxint', 'bfloat']
+    scales = [3, 0.1, 0.7, 49, 1.1, 1e-3, 7, 2, 0.5, 2 ** -5, -3, 10]
+    if tier == 'quick':
+        scales = scales[:8]
+    for fmt in fmts:
+        plain = Dtype(fmt)
+        n = plain.bitlength
+        codes = range(0, 1 << n, 1 if n <= 8 else (257 if tier == 'quick' else 17))
+        vals = []
+        for c in codes:
+            try:
+                v = plain.parse(Bits(uint=c, length=n)) if hasattr(plain, 'parse') else getattr(Bits(uint=c, length=n), fmt)
+            except Exception:
+                continue
+            if isinstance(v, float) and math.isfinite(v):
+                vals.append(v)
+        vals = sorted(set(vals))
+        points = list(vals) + [(a + b) / 2 for a, b in zip(vals, vals[1:])]
+        for s_ in scales:
+            scaled = Dtype(fmt, scale=s_)
+            for b in points:
+                x = b * s_
+                evals += 1
+                try:
+                    want = plain.build(x / s_).bin
+                except ValueError:
+                    want = 'ValueError'
+                try:
+                    got = scaled.build(x).bin
+                except ValueError:
+                    got = 'ValueError'
+                if got != want:
+                    fails.append({'call': f"Dtype({fmt!r}, scale={s_!r}).build({x!r})", 'observed': got, 'expected': f'{want} (= Dtype({fmt!r}).build({x!r} / {s_!r}))',
+                                  'python': f"import bitstring\nD = bitstring.Dtype\ndef b(f):\n    try: return f().bin\n    except ValueError: return 'ValueError'\n"
+                                            f"FAILS = b(lambda: D({fmt!r}, scale={s_!r}).build({x!r})) != b(lambda: D({fmt!r}).build({x!r} / {s_!r}))\n"})
+                    break
+            if len(fails) > 4:
+                break
+    return {'id': 'C11.scale', 'obligations': [], 'evaluations': evals,
+            'bounded': [{'id': 'C11/dtypes.scaled_set_fn/scale-divides-before-encoding', 'qualname': 'dtypes.scaled_set_fn', 'shape': 'formats x scales x boundary values',
+                         'function': 'Dtype(fmt, scale=s).build', 'bound': f'{len(fmts)} formats x {len(scales)} scales x every code value and midpoint', 'evaluations': evals,
+                         'failures': fails[:3]}],
+            'summary': f'{evals} builds, {len(fails)} failures'}
